@@ -56,6 +56,10 @@ func (this *Addr) Deserialization(source *common.ZeroCopySource) error {
 		return io.ErrUnexpectedEOF
 	}
 
+	if count > source.Len() {
+		// each address entry takes 44 bytes; also keeps int(count) from going negative
+		return io.ErrUnexpectedEOF
+	}
 	for i := 0; i < int(count); i++ {
 		var addr comm.PeerAddr
 		addr.Time, eof = source.NextInt64()
